@@ -1,4 +1,6 @@
 pub mod c01;
+pub mod c02;
+pub mod c03;
 
 use crate::run::{Ctx, Gen};
 
@@ -14,5 +16,7 @@ pub struct Prop {
 pub fn all() -> Vec<Prop> {
     vec![
         Prop { id: "C01", gens: c01::gens, run: c01::run, rule: c01::RULE, assumptions: c01::ASSUMPTIONS },
+        Prop { id: "C02", gens: c02::gens, run: c02::run, rule: c02::RULE, assumptions: c02::ASSUMPTIONS },
+        Prop { id: "C03", gens: c03::gens, run: c03::run, rule: c03::RULE, assumptions: c03::ASSUMPTIONS },
     ]
 }
